@@ -194,6 +194,38 @@ def c11b(ctx, tu):
                             why = "at the end of the range the element step does not produce 'no match'"
                 ctx.ob("C11.b", name + " element step", ok, pattern=lam.pat, unit=tu.name, inst=lam.q,
                        detail="" if ok else why)
+                if ok and g is not None:
+                    # every listed element consumes exactly one member of the range, whether it matches or not: from
+                    # the not-at-end edge no path reaches the exit without advancing the range iterator
+                    bid, at_end_edge = g
+                    adv = set(b for b, _, e in derefs if (e["e"] == "incdec" and e.get("op") == "++") or
+                              (e["e"] == "call" and e.get("op") == "++"))
+                    nxt = lam.blocks[bid]["succ"][1 - at_end_edge]
+                    ok2 = bool(adv) and nxt is not None and (nxt in adv or lam.exit not in cfg.reach(lam, nxt, avoid_blocks=adv))
+                    ctx.ob("C11.b", name + " element step (one member per element)", ok2, pattern=lam.pat, unit=tu.name,
+                           inst=lam.q, detail="" if ok2 else "a listed element that does not match leaves the range iterator "
+                           "where it is: the next element is compared with the same member (a shorter range is accepted)")
+            # the verdicts of the elements are conjoined: a mismatch is never forgotten
+            accs = [e for b, e in fn.events() if e["e"] == "decl" and e.get("type") in ("bool", "_Bool") and e.get("init") == ["bool", True]]
+            if len(accs) == 1:
+                acc = accs[0]
+                outer = [e for b, e in fn.events() if e["e"] == "assign" and isinstance(e.get("lhs"), list) and
+                         e["lhs"][:2] == ["var", acc["var"]]]
+                keeps = all(isinstance(e.get("rhs"), list) and e["rhs"][:2] == ["b", "&&"] and
+                            lib.strip_casts(e["rhs"][2])[:2] == ["var", acc["var"]] for e in outer)
+                if not outer or not keeps:
+                    # ... or the element step itself does nothing once the accumulator is false
+                    guarded = False
+                    for lam in lambdas_in(tu, fn):
+                        for bid in lam.blocks:
+                            c = cfg.cond_of(lam, bid)
+                            t0, _p = cond_shape(c) if c is not None else (None, True)
+                            if isinstance(t0, list) and t0[:1] == ["var"] and len(t0) > 2 and t0[2] == acc.get("name"):
+                                guarded = True
+                    keeps = guarded
+                ctx.ob("C11.b", name + " fold", keeps, pattern=fn.pat, unit=tu.name, inst=fn.q,
+                       detail="" if keeps else "the result of an element overwrites the accumulated verdict: a mismatch of an "
+                       "earlier element is forgotten when a later one matches")
     # ends_with: a range shorter than the element list does not match, otherwise the iterator is advanced to
     # size - n before anything is dereferenced.  Decided by interpreting the checker on every (size, n).
     class Advanced(Exception):
